@@ -267,9 +267,14 @@ def drive_c(rec, quick):
     L = Lib.get()
     events = []
     dims = [2, 4, 8, 16, 64, 256, 1024] if quick else [1, 2, 4, 8, 16, 32, 64, 128, 256, 512, 1024, 2048, 4096]
-    Ws = {n: Wrappers(L, n) for n in dims}
+    # modules are created and deleted along the way: an address handed out again to a module of another dimension may not bring back
+    # anything remembered about the module that lived there before
+    Ws = {}
     for p in ([-1, 3, 5, 9, 12345] if quick else [-1, 1, 3, 5, 7, 9, 17, 31, 12345, -77, (1 << 40) + 1]):
         for n in dims + dims[::-1]:
+            for old_n in list(Ws):
+                Ws.pop(old_n).close()
+            Ws[n] = Wrappers(L, n)
             probe = np.arange(1, n + 1, dtype=np.int64)
             for kind in ("aut", "rot", "mxp"):
                 groups = {}
